@@ -19,7 +19,7 @@ RULE = ('cases = random expression trees (depth 1..3) over the differentiable op
 ASSUMPTIONS = ['real float64 only (as the property states)', 'the TT layer is covered by C20 with the same oracle']
 REQUIRED_REACH = ['grad:watch', 'grad:grad', 'grad:grad_list', '_tt_base:TT.norm', '_extras:dot', '_extras:bilinear_form', '_tt_base:TT.__getitem__', '_tt_base:TT.apply_mask', '_extras:cat',
                   '_extras:pad', '_extras:diag', '_tt_base:TT.mprod', '_tt_base:TT.__matmul__', '_tt_base:TT.sum', '_extras:kron', '_tt_base:TT.full']
-REQUIRED_COUNTS = {'api:grad.grad': 1, 'api:grad.grad_list': 1, 'api:autograd.grad': 1, 'gradients_compared': 300, 'fd_crosschecks': 100}
+REQUIRED_COUNTS = {'api:grad.grad': 1, 'api:grad.grad_list': 1, 'api:grad.grad_list(all_in_one=False)': 1, 'api:grad.grad_list(all_in_one=True)': 1, 'api:autograd.grad': 1, 'gradients_compared': 300, 'fd_crosschecks': 100}
 LINE_FUNCS = ['grad', 'grad_list', 'watch']
 T_OPS = ['add', 'sub', 'mul', 'smul', 'rsmul', 'sadd', 'rsub', 'sdiv', 'neg', 'matvec', 'vecmat', 'mprod', 'padslice', 'catslice', 'bcastmul', 'pos', 'tsadd', 'tsradd', 'tssub', 'tsmul', 'tsdiv']
 S_OPS = ['sum', 'sumk', 'dot', 'dotk', 'norm', 'norm2', 'bilinear', 'fullw', 'mask', 'item', 'slicesum', 'kronw', 'diagbil', 'opfull', 'optfull', 'opmatmul', 'diagop', 'noneslice']
@@ -441,10 +441,21 @@ def run_case(case, ctx):
         fulls = [nme for nme in names if tracked[nme] == list(range(d))]
         if not fulls:
             fulls = []
-        out = ctx.lib('grad.grad_list', lambda v, *ts: torchtt.grad.grad_list(v, list(ts)), val, *[E.tt[nme] for nme in names])
+        nested = (case['seed'] // 7) % 2 == 1      # all_in_one=False: a list of per-tensor lists
+        ctx.count('api:grad.grad_list(all_in_one=%s)' % (not nested))
+        if nested:
+            out = ctx.lib('grad.grad_list', lambda v, *ts: torchtt.grad.grad_list(v, list(ts), all_in_one=False), val, *[E.tt[nme] for nme in names])
+        else:
+            out = ctx.lib('grad.grad_list', lambda v, *ts: torchtt.grad.grad_list(v, list(ts)), val, *[E.tt[nme] for nme in names])
         if isinstance(out, Raised):
             ctx.viol('grad.grad_list/clause=raises:%s' % out.type, '%s: %r' % (what, out))
             return
+        if nested:
+            if not isinstance(out, list) or len(out) != len(names) or any(not isinstance(o, list) or len(o) != d for o in out):
+                ctx.viol('grad.grad_list/clause=length', '%s: all_in_one=False returned %s for %d tensors of %d cores' % (
+                    what, [len(o) if isinstance(o, list) else type(o).__name__ for o in out] if isinstance(out, list) else type(out).__name__, len(names), d))
+                return
+            out = [g_ for o in out for g_ in o]
         if len(out) != d * len(names):
             ctx.viol('grad.grad_list/clause=length', '%s: %d entries for %d tensors of %d cores' % (what, len(out), len(names), d))
             return
